@@ -40,6 +40,7 @@ def ensure_built(tier, chk):
         tail = "\n".join(l for l in p.stderr.splitlines() if not l.startswith("warning"))[-4000:]
         raise Machinery("zoo build failed (tier %s):\n%s" % (tier, tail))
     binary = os.path.join(target_dir(tier), "debug", "zoo")
+    model["_ncpu"] = parallelism(binary)
     _state[tier] = (binary, model)
     return _state[tier]
 
@@ -229,18 +230,48 @@ def flatten(nodes, parent=""):
 # Reference helpers
 # ----------------------------------------------------------------------------------------
 
-def expected_records(model, cases, test_mode=True):
-    """Log records a run of exactly `cases` must produce in test mode: per case one HIT (and one
-    ENTER for Bencher-form functions), keyed (kind, bench id, arg, type, const)."""
+_parallelism = {}
+
+
+def parallelism(binary):
+    """Divan's cached available parallelism, as the zoo process itself reports it."""
+    if binary not in _parallelism:
+        r = run_zoo(binary, ["--list", "nothing_matches_this"], want_dump=True)
+        _parallelism[binary] = next((e["parallelism"] for e in r.dump if e.get("kind") == "meta"), os.cpu_count())
+    return _parallelism[binary]
+
+
+def thread_counts(eff, ncpu, runner_threads=None):
+    """Normalised thread counts a benchmark runs with: 0 = available parallelism, sorted, unique."""
+    t = runner_threads if runner_threads is not None else eff.get("threads")
+    if not t:
+        return [1]
+    return sorted(set(ncpu if x == 0 else x for x in t))
+
+
+def expected_records(model, cases, ncpu=None, runner=None):
+    """Log records a *test-mode* run of exactly `cases` must produce, keyed (kind, bench id, arg,
+    type, const): the function carrying a Bencher is entered once per thread count; the benchmarked
+    function runs once per thread (once in all for bench_local; not at all when no samples are
+    requested)."""
     benches = {b["id"]: b for b in model["benches"]}
+    runner = runner or {}
+    ncpu = ncpu or model.get("_ncpu") or os.cpu_count()
     want = []
     for c in cases:
         b = benches[c["bench"]]
+        eff = b.get("effective") or {}
         key = (str(b["id"]), c["arg"] if c["arg"] is not None else "-", c["type"] or "-", c["const"] or "-")
+        tcs = thread_counts(eff, ncpu, runner.get("threads"))
+        n = runner.get("sample_count", eff.get("sample_count"))
+        s = runner.get("sample_size", eff.get("sample_size"))
+        nothing = n == 0 or s == 0 or eff.get("max_time_zero")
         if b["form"] == "bencher":
-            want.append(("ENTER",) + key)
-        if b.get("body") != "quiet":
-            want.append(("HIT",) + key)
+            want += [("ENTER",) + key] * len(tcs)
+        if b.get("body") == "quiet" or nothing:
+            continue
+        local = b.get("style") == "bench_local"
+        want += [("HIT",) + key] * (len(tcs) if local else sum(tcs))
     return sorted(want)
 
 
@@ -308,6 +339,8 @@ def check_c12(tier, seed, chk):
         want_entries.append(("group", g["raw_name"], g["display_name"], mp, g["line"], g["col"], "null", "null", g["ignore"], g["options"].get("sample_count"), g["options"].get("sample_size")))
     got_entries = []
     for e in r.dump:
+        if e.get("kind") == "meta":
+            continue
         o = e["options"] or {}
         got_entries.append((e["kind"], e["raw_name"], e["display_name"], e["module_path"], e["line"], e["col"],
                             json.dumps(e.get("args")), json.dumps(e.get("generic")), o.get("ignore"),
@@ -321,7 +354,7 @@ def check_c12(tier, seed, chk):
         klass = "duplicate" if dup and not missing else ("missing" if missing and not extra else ("extra" if extra and not missing else "differs"))
         violation(res, {"check": "registered-entries", "class": klass},
                   "registered entries differ from the program: missing %s; unexpected %s" % (missing[:3], extra[:3]), r)
-    res["samples"].append({"registered_entries": len(r.dump), "example": r.dump[0] if r.dump else None})
+    res["samples"].append({"registered_entries": len(r.dump) - 1, "example": r.dump[0] if r.dump else None})
 
     # (ii) --list tree vs prediction (entries, generic instantiations as children; no args)
     roots, errors, _ = parse_tree(r.out, False)
@@ -391,18 +424,39 @@ def log_is_silent(run):
     return [r for r in run.log if r[0] in ("HIT", "ENTER", "AUX")]
 
 
-def shown_leaves(model, sel, flag):
-    """Leaf paths a --test / bench run displays for the selected cases: one per executed case; a
-    benchmark that is skipped as ignored is one `(ignored)` leaf without argument children."""
+def shown_leaves(model, sel, flag, runner=None):
+    """Leaf paths a --test / bench run displays for the selected cases: one per executed case
+    (one `t=N` leaf per thread count when there are several); a benchmark that is skipped as
+    ignored is one `(ignored)` leaf without argument children."""
     benches = {b["id"]: b for b in model["benches"]}
     out = set()
     for c in sel:
         if runs_under(flag, c):
-            out.add(c["path"])
+            tcs = thread_counts(benches[c["bench"]].get("effective") or {}, model["_ncpu"], (runner or {}).get("threads"))
+            if len(tcs) > 1:
+                for t in tcs:
+                    out.add("%s::t=%d" % (c["path"], t))
+            else:
+                out.add(c["path"])
         else:
             parts = c["path"].split("::")
             out.add("::".join(parts[:-1]) if c["arg"] is not None else c["path"])
     return out
+
+
+def executed_paths(model, run):
+    """Paths of the cases a run executed, by the invocation log (HIT, else ENTER, else the
+    counters of allocation-free bodies), with multiplicity 1 per case."""
+    benches = {b["id"]: b for b in model["benches"]}
+    keys = set(tuple(r[1:5]) for r in run.log if r[0] in ("HIT", "ENTER"))
+    quiet = set(r[1] for r in run.log if r[0] == "QUIET")
+    out = []
+    for c in model["cases"]:
+        b = benches[c["bench"]]
+        key = (str(b["id"]), c["arg"] if c["arg"] is not None else "-", c["type"] or "-", c["const"] or "-")
+        if key in keys or (b.get("body") == "quiet" and str(b["id"]) in quiet):
+            out.append(c["path"])
+    return sorted(out)
 
 
 FILTER_ALPHABET = ["ign", "^zoo::f00", "a_", "g_t", "inherited", "::1$", "m::", "(TA|x)$", "zoo::nest::a::same", "Shown As"]
@@ -531,15 +585,7 @@ def check_c14(tier, seed, chk):
             violation(res, dict(sigb, **{"check": "terse-format"}), "%s: terse listing prints something other than `path: benchmark`: %r" % (desc, bad_lines[:3]), a)
         listed_paths = sorted(l[: -len(": benchmark")] for l in listed if l.endswith(": benchmark"))
         # cases the test run executed, mapped back to paths through the model
-        executed = []
-        recs = observed_records(b)
-        for cse in cases:
-            bn = benches[cse["bench"]]
-            if bn.get("body") == "quiet":
-                continue
-            key = ("HIT", str(bn["id"]), cse["arg"] if cse["arg"] is not None else "-", cse["type"] or "-", cse["const"] or "-")
-            executed += [cse["path"]] * recs.count(key)
-        executed.sort()
+        executed = executed_paths(model, b)
         if listed_paths != executed:
             only_listed = [p for p in listed_paths if p not in executed]
             only_run = [p for p in executed if p not in listed_paths]
@@ -629,7 +675,7 @@ def check_c17(tier, seed, chk):
     for b in arg_benches:
         mine = [c for c in cases if c["bench"] == b["id"]]
         prefix = mine[0]["path"].rsplit("::", 1)[0] if not (b["types"] or b["consts"]) else None
-        fam = "^zoo::" + "::".join(b["module"][:1]) + "::"
+        fam = "^" + re.escape(mine[0]["path"][: mine[0]["path"].index("::" + b["display_name"] + "::") + 2 + len(b["display_name"])]) + "::"
         labels = b["args"]
         subsets = [None]
         if len(labels) <= 4 or tier == "thorough":
@@ -644,7 +690,7 @@ def check_c17(tier, seed, chk):
                     kind, a = sub
                     esc = re.escape(a)
                     if kind == "only":
-                        argv = ["--test", "--include-ignored", sort[0], sort[1], fam + ".*::" + esc + "$"]
+                        argv = ["--test", "--include-ignored", sort[0], sort[1], fam + "(.*::)?" + esc + "$"]
                         keep_cases = [c for c in mine if c["arg"] == a]
                     else:
                         argv += ["--skip", "::" + esc + "$"]
@@ -683,7 +729,408 @@ def check_c17(tier, seed, chk):
     return [res]
 
 
-CHECKS = {"C12": check_c12, "C13": check_c13, "C14": check_c14, "C17": check_c17}
+# ----------------------------------------------------------------------------------------
+# Reference order (documented sort) and expected display tree
+# ----------------------------------------------------------------------------------------
+
+import functools
+
+
+def natural_tokens(s):
+    b = s.encode("utf-8")
+    out, i = [], 0
+    while i < len(b):
+        d = 48 <= b[i] <= 57
+        j = i
+        while j < len(b) and (48 <= b[j] <= 57) == d:
+            j += 1
+        out.append((d, b[i:j]))
+        i = j
+    return out
+
+
+def natural_cmp(a, b):
+    ta, tb = natural_tokens(a), natural_tokens(b)
+    for (da, xa), (db, xb) in zip(ta, tb):
+        if da and db:
+            ia, ib = int(xa), int(xb)
+            if ia != ib:
+                return -1 if ia < ib else 1
+        elif xa != xb:
+            return -1 if xa < xb else 1
+    return (len(ta) > len(tb)) - (len(ta) < len(tb))
+
+
+def num_value(s):
+    from fractions import Fraction
+    try:
+        return Fraction(int(s))
+    except ValueError:
+        pass
+    try:
+        f = float(s)
+        if f != f or f in (float("inf"), float("-inf")):
+            return None
+        return Fraction(s) if re.match(r"^[+-]?\d+(\.\d+)?$", s) else Fraction(f)
+    except ValueError:
+        return None
+
+
+def arg_cmp_by_name(a, b):
+    va, vb = num_value(a), num_value(b)
+    if va is not None and vb is not None:
+        return (va > vb) - (va < vb)
+    if va is not None:
+        return -1
+    if vb is not None:
+        return 1
+    return natural_cmp(a, b)
+
+
+class DNode:
+    """A node of the expected display tree."""
+    def __init__(self, name, kind, loc, children=None, case=None, ignored=False, const=None, arg_index=None):
+        self.name, self.kind, self.loc = name, kind, loc      # kind: 0 leaf entry, 1 parent (module / group / generic)
+        self.children = children or []
+        self.case = case          # model case executed at this leaf, if any
+        self.ignored = ignored
+        self.const = const        # integer const value for generic consts (own ordering)
+        self.arg_index = arg_index
+
+
+def sort_nodes(nodes, attr, reverse):
+    def cmp(a, b):
+        kind = (a.kind > b.kind) - (a.kind < b.kind)
+        if a.const is not None and b.const is not None:
+            name = (a.const > b.const) - (a.const < b.const) or natural_cmp(a.name, b.name)
+        else:
+            name = natural_cmp(a.name, b.name)
+        loc = (a.loc > b.loc) - (a.loc < b.loc)
+        order = {"kind": (kind, name, loc), "name": (name, loc, kind), "location": (loc, kind, name)}[attr]
+        for o in order:
+            if o:
+                return -o if reverse else o
+        return 0
+    return sorted(nodes, key=functools.cmp_to_key(cmp))
+
+
+def expected_tree(model, sel, action, flag, attr="kind", reverse=False, runner=None):
+    """The tree divan must display for the selected cases: modules / groups by display name,
+    benchmarks, generic instantiations, arguments and thread-count branches, in the documented
+    order for (attr, reverse). action: 'bench' | 'test' | 'list'."""
+    benches = {b["id"]: b for b in model["benches"]}
+    groups = model["groups"]
+
+    def group_of(module):
+        for g in groups:
+            if g["module"] == module[:-1] and g["raw_name"] == module[-1]:
+                return g
+        return None
+
+    root = DNode("zoo", 1, (0, 0))
+    index = {(): root}
+
+    def module_node(module):
+        key = tuple(module)
+        if key in index:
+            return index[key]
+        parent = module_node(module[:-1])
+        g = group_of(module)
+        name = g["display_name"] if g else (module[-1][2:] if module[-1].startswith("r#") else module[-1])
+        node = DNode(name, 1, (g["line"], g["col"]) if g else None)
+        node.group = g
+        parent.children.append(node)
+        index[key] = node
+        return node
+
+    by_bench = {}
+    for c in sel:
+        by_bench.setdefault(c["bench"], []).append(c)
+    ncpu = model["_ncpu"]
+    for bid, cs in by_bench.items():
+        b = benches[bid]
+        parent = module_node(b["module"])
+        loc = (b["line"], b["col"])
+        eff = b.get("effective") or {}
+        tcs = thread_counts(eff, ncpu, (runner or {}).get("threads"))
+
+        def leafs(name, kind_loc, case_list, const=None, addr=0):
+            """Display nodes of one entry (plain or args) given its cases."""
+            ignored = not runs_under(flag, case_list[0])
+            if ignored:
+                return DNode(name, 0, kind_loc, ignored=True, const=const)
+            if action == "list":
+                return DNode(name, 0, kind_loc, const=const)
+            def with_threads(nm, case, arg_index=None):
+                if len(tcs) > 1:
+                    return DNode(nm, 0, kind_loc, [DNode("t=%d" % t, 0, kind_loc, case=case) for t in tcs], const=const, arg_index=arg_index)
+                return DNode(nm, 0, kind_loc, case=case, const=const, arg_index=arg_index)
+            if b["args"] is not None:
+                kids = [with_threads(c["arg"], c, c["arg_index"]) for c in case_list]
+                # arguments: by name = by value (numbers) / natural, ties and `location` = declaration order
+                def acmp(x, y):
+                    name = arg_cmp_by_name(x.name, y.name)
+                    locv = (x.arg_index > y.arg_index) - (x.arg_index < y.arg_index)
+                    order = {"kind": (name, locv), "name": (name, locv), "location": (locv, name)}[attr]
+                    for o in order:
+                        if o:
+                            return -o if reverse else o
+                    return 0
+                kids = sorted(kids, key=functools.cmp_to_key(acmp))
+                n = DNode(name, 0, kind_loc, kids, const=const)
+                n.args_parent = True
+                return n
+            return with_threads(name, case_list[0])
+
+        if b["types"] is None and b["consts"] is None:
+            parent.children.append(leafs(b["display_name"], loc, cs))
+            continue
+        gnode = DNode(b["display_name"], 1, loc)
+        gnode.generic = True
+        parent.children.append(gnode)
+        # instantiations keep declaration order under `location` (same location: entry address)
+        def decl_index(c):
+            ti = b["types"].index(c["type"]) if c["type"] else 0
+            ci = b["consts"].index(c["const"]) if c["const"] else 0
+            return ti * 1000 + ci
+        if b["types"] is not None and b["consts"] is not None:
+            for t in b["types"]:
+                tcs_cases = [c for c in cs if c["type"] == t]
+                if not tcs_cases:
+                    continue
+                tnode = DNode(t, 1, None)   # the intermediate type level has no position of its own
+                tnode.type_level = True
+                gnode.children.append(tnode)
+                for cv in b["consts"]:
+                    ccases = [c for c in tcs_cases if c["const"] == cv]
+                    if ccases:
+                        n = leafs(cv, (loc, decl_index(ccases[0])), ccases, const=int(cv))
+                        tnode.children.append(n)
+        else:
+            labels = b["types"] if b["types"] is not None else b["consts"]
+            for lb in labels:
+                lc = [c for c in cs if (c["type"] or c["const"]) == lb]
+                if lc:
+                    n = leafs(lb, (loc, decl_index(lc[0])), lc, const=int(lb) if b["consts"] is not None else None)
+                    gnode.children.append(n)
+
+    def finish(node):
+        for ch in node.children:
+            finish(ch)
+        if node.loc is None and node.children and not getattr(node, "type_level", False):
+            # a plain module's location is its earliest child's
+            locs = [ch.loc if not isinstance(ch.loc[0], tuple) else ch.loc[0] for ch in node.children if ch.loc is not None]
+            node.loc = min(locs) if locs else (0, 0)
+        if getattr(node, "args_parent", False) or (node.kind == 0 and node.children):
+            return  # argument / thread children are already in display order
+        if getattr(node, "type_level", False):
+            node.loc = (0, 0)
+        kids = node.children
+        # the intermediate type level falls back to name order under `location`
+        if any(getattr(k, "type_level", False) for k in kids):
+            node.children = sorted(kids, key=functools.cmp_to_key(lambda a, b: (-1 if reverse else 1) * natural_cmp(a.name, b.name)))
+        else:
+            def norm(n):
+                m = DNode(n.name, n.kind, n.loc if n.loc is not None else (0, 0), const=n.const)
+                m.src = n
+                return m
+            node.children = [m.src for m in sort_nodes([norm(k) for k in kids], attr, reverse)]
+    finish(root)
+    return root
+
+
+def tree_paths(node, parent=""):
+    out = []
+    for ch in node.children:
+        p = ch.name if not parent else parent + "::" + ch.name
+        out.append((p, ch))
+        out.extend(tree_paths(ch, p))
+    return out
+
+
+# ----------------------------------------------------------------------------------------
+# C20 -- the printed tree is a faithful, well-formed picture of what ran
+# ----------------------------------------------------------------------------------------
+
+HEADINGS = ["fastest", "slowest", "median", "mean", "samples", "iters"]
+CLOCK = "1000000000000,0,1000"   # 1 tick = 1 ps, reads cost nothing, precision 1 ns
+
+
+def expected_rows(stat):
+    """(first row cells, continuation rows as lists of cells) from one tapped statistics record."""
+    first = stat["time_fmt"] + [str(stat["sample_count"]), str(stat["iter_count"])]
+    cont = []
+    for c in stat["counters"]:
+        if c is not None:
+            cont.append(c["fmt"])
+    ma = stat["max_alloc"]
+    import struct
+    def nonzero(bits):
+        return any(struct.unpack("<d", struct.pack("<Q", b))[0] != 0.0 for b in bits)
+    if nonzero(ma["size_bits"]):
+        cont.append(["max alloc:"])
+        cont.append(ma["count_fmt"])
+        cont.append(ma["size_fmt"])
+    # alloc_ops is indexed Grow, Shrink, Alloc, Dealloc; printed alloc, dealloc, grow, shrink
+    for label, idx in (("alloc:", 2), ("dealloc:", 3), ("grow:", 0), ("shrink:", 1)):
+        op = stat["alloc_ops"][idx]
+        if nonzero(op["count_bits"]) or nonzero(op["size_bits"]):
+            cont.append([label])
+            cont.append(op["count_fmt"])
+            cont.append(op["size_fmt"])
+    return first, cont
+
+
+def compare_tree(res, sig, desc, run, roots, want_root, has_columns, stats=None, check_stats=False):
+    """Parsed output vs expected display tree: same nodes, same depth-first order."""
+    if len(roots) != 1 or roots[0].name != "zoo":
+        if not want_root.children and not roots:
+            return True
+        violation(res, dict(sig, **{"class": "roots"}), "%s: expected a single top-level node `zoo`, parsed %s" % (desc, [r.name for r in roots]), run)
+        return False
+    got = [(p, n) for p, n in flatten(roots[0].children)]
+    want = tree_paths(want_root)
+    gp, wp = [p for p, _ in got], [p for p, _ in want]
+    if sorted(gp) != sorted(wp):
+        dup = sorted(set(p for p in gp if gp.count(p) > 1))
+        violation(res, dict(sig, **{"class": "node-set", "duplicate": bool(dup)}),
+                  "%s: displayed nodes differ from what was selected: unexpected %s, missing %s, shown twice %s" % (desc, sorted(set(gp) - set(wp))[:4], sorted(set(wp) - set(gp))[:4], dup[:3]), run)
+        return False
+    if gp != wp:
+        k = next(i for i in range(len(gp)) if gp[i] != wp[i])
+        violation(res, dict(sig, **{"class": "node-order"}), "%s: depth-first display order differs from the documented sort order at position %d: shown %s, expected %s" % (desc, k, gp[k:k + 4], wp[k:k + 4]), run)
+        return False
+    # ignored marks
+    for (p, g), (_, w) in zip(got, want):
+        is_ign = bool(g.rest) and g.rest[0] == "(ignored)"
+        if is_ign != w.ignored:
+            violation(res, dict(sig, **{"class": "ignored-mark"}), "%s: %r is %sshown as (ignored) but its effective ignore says otherwise" % (desc, p, "" if is_ign else "not "), run)
+            return False
+    if not check_stats:
+        return True
+    # statistics rows: leaves that ran, in display order, against the tapped statistics in order
+    ran = [(p, g, w) for (p, g), (_, w) in zip(got, want) if w.case is not None]
+    if len(ran) != len(stats):
+        violation(res, dict(sig, **{"class": "stats-count"}), "%s: %d leaves display statistics, %d statistics blocks were computed" % (desc, len(ran), len(stats)), run)
+        return False
+    for (p, g, w), stat in zip(ran, stats):
+        first, cont = expected_rows(stat)
+        if g.rest != first:
+            col = next((HEADINGS[i] for i in range(min(len(g.rest), 6)) if i >= len(first) or g.rest[i] != first[i]), "count")
+            violation(res, dict(sig, **{"class": "cells", "column": col}), "%s: row %r shows %s under (fastest, slowest, median, mean, samples, iters); the statistics computed for it format as %s" % (desc, p, g.rest, first), run)
+            return False
+        rows = []
+        want_prefix = g.prefix + ("│" if not g.last else " ")
+        for no, line in g.cont:
+            if not line.startswith(want_prefix):
+                violation(res, dict(sig, **{"class": "continuation-prefix"}), "%s: continuation row %d of %r starts %r, its position demands %r" % (desc, no, p, line[: len(want_prefix) + 2], want_prefix), run)
+                return False
+            body = line[len(want_prefix):]
+            cells = [c.strip() for c in body.split("│")]
+            while len(cells) > 1 and cells[-1] == "":
+                cells.pop()
+            rows.append(cells)
+        want_rows = []
+        for r_ in cont:
+            r2 = list(r_)
+            while len(r2) > 1 and r2[-1] == "":
+                r2.pop()
+            want_rows.append(r2)
+        if rows != want_rows:
+            k = next((i for i in range(min(len(rows), len(want_rows))) if rows[i] != want_rows[i]), min(len(rows), len(want_rows)))
+            violation(res, dict(sig, **{"class": "continuation-rows"}), "%s: throughput / allocation rows of %r differ from the computed statistics at row %d: shown %s, expected %s" % (desc, p, k, rows[k:k + 2], want_rows[k:k + 2]), run)
+            return False
+    # nodes that did not run carry no continuation rows
+    for (p, g), (_, w) in zip(got, want):
+        if w.case is None and g.cont:
+            violation(res, dict(sig, **{"class": "stray-rows"}), "%s: %r did not run but is followed by continuation rows %s" % (desc, p, g.cont[:2]), run)
+            return False
+    return True
+
+
+def check_c20(tier, seed, chk):
+    binary, model = ensure_built(tier, chk)
+    res = new_result("zoo-C20", tier)
+    t0 = time.time()
+    cases = model["cases"]
+    fams = sorted(k for k, v in model["families"].items() if v == "shapes")
+    extra = ["ign", "srt", "nest"] + sorted(k for k, v in model["families"].items() if v == "forms")[:: 3 if tier == "quick" else 1]
+    configs = [
+        ("bench", ["--bench", "--timer", "tsc", "--sample-count", "3", "--sample-size", "2"], {"sample_count": 3, "sample_size": 2}),
+        ("test", ["--test"], {}),
+        ("list", ["--list"], {}),
+    ]
+    variants = [
+        ("bench", ["--bench", "--timer", "tsc", "--sample-count", "2", "--sample-size", "1", "--items-count", "5"], {"sample_count": 2, "sample_size": 1}),
+        ("bench", ["--bench", "--timer", "tsc", "--sample-count", "4", "--sample-size", "3", "--bytes-count", "1500", "--bytes-format", "binary", "--chars-count", "3"], {"sample_count": 4, "sample_size": 3}),
+        ("bench", ["--bench", "--timer", "tsc", "--sample-count", "1", "--sample-size", "1", "--sortr", "name", "--include-ignored"], {"sample_count": 1, "sample_size": 1}),
+        ("bench", ["--bench", "--timer", "tsc", "--sample-count", "0"], {"sample_count": 0}),
+        ("test", ["--test", "--sort", "location", "--ignored"], {}),
+        # filters that keep a strict subset of the arguments / instantiations
+        ("test", ["--test", "--skip", "::(yy|2|TB)$"], {}),
+        ("bench", ["--bench", "--timer", "tsc", "--sample-count", "2", "--sample-size", "2", "--skip", "::(x|3|TA)$"], {"sample_count": 2, "sample_size": 2}),
+    ]
+    jobs = []
+    for fam in fams + extra:
+        for cfg in configs:
+            jobs.append((fam, cfg))
+    for i, fam in enumerate(fams + extra):
+        for j, v in enumerate(variants):
+            if tier == "thorough" or (i + j) % 3 == 0:
+                jobs.append((fam, v))
+    # whole zoo (column widths and name span interact across the whole tree)
+    for cfg in configs + variants[:2]:
+        jobs.append((None, cfg))
+
+    def one(job):
+        fam, (action, argv, runner) = job
+        flt = ["^zoo::%s::" % fam] if fam else ["--skip", "^zoo::pnc"]
+        r = run_zoo(binary, argv + flt, want_stats=(action == "bench"), clock=CLOCK, timeout=600)
+        return job, r
+
+    outcomes = set()
+    for (fam, (action, argv, runner)), r in pmap(one, jobs):
+        count_run(res, r, len(r.out.splitlines()))
+        desc = "zoo %s %s" % (" ".join(argv), fam or "(whole zoo)")
+        sig = {"check": "painted-tree", "action": action}
+        if r.rc != 0 or r.timeout:
+            violation(res, dict(sig, **{"class": "crash"}), "%s exited with %s: %s" % (desc, r.rc, r.err[-400:]), r)
+            continue
+        flag = "include" if "--include-ignored" in argv else ("ignored" if "--ignored" in argv else "none")
+        attr, reverse = "kind", False
+        for k in ("--sort", "--sortr"):
+            if k in argv:
+                attr, reverse = argv[argv.index(k) + 1], k == "--sortr"
+        sel = [c for c in cases if (c["path"].startswith("zoo::%s::" % fam) if fam else not c["path"].startswith("zoo::pnc"))]
+        if "--skip" in argv:
+            sel = selected(sel, (), (argv[argv.index("--skip") + 1],), False)
+        has_columns = action == "bench"
+        roots, errors, header = parse_tree(r.out, has_columns)
+        if errors:
+            violation(res, dict(sig, **{"class": "malformed"}), "%s: the output cannot be parsed back into a tree: %s" % (desc, errors[:3]), r)
+            continue
+        if has_columns and roots and header != HEADINGS:
+            violation(res, dict(sig, **{"class": "header"}), "%s: header cells are %s, expected %s" % (desc, header, HEADINGS), r)
+            continue
+        want_root = expected_tree(model, sel, action, flag, attr, reverse, runner)
+        ok = compare_tree(res, sig, desc, r, roots, want_root, has_columns, r.stats, check_stats=(action == "bench"))
+        if ok and action != "list":
+            # (ignored) rows and listings have an empty invocation log for those benchmarks
+            ran_ids = set(rec[1] for rec in r.log if rec[0] in ("HIT", "ENTER", "QUIET"))
+            for c in sel:
+                if not runs_under(flag, c) and str(c["bench"]) in ran_ids:
+                    violation(res, dict(sig, **{"class": "ignored-ran"}), "%s: %r is marked (ignored) but its body ran" % (desc, c["path"]), r)
+        outcomes.add((action, len(tree_paths(want_root))))
+    res["distinct_outcomes"] = len(outcomes)
+    res["samples"] = [{"families": len(fams + extra), "jobs": len(jobs), "example_argv": jobs[3][1][1]}, {"shape_families": fams[:5]}]
+    res["bounds"] = {"tree_shapes": "all ordered forests with <= %d nodes below the family root (%d families)" % (6 if tier == "thorough" else 4, len(fams)),
+                     "leaf_kinds": ["bench", "args(2)", "ignored", "threads=[1,2]", "Bencher::counter + bytes_count", "allocation-free body", "with_inputs + input_counter", "wide display name", "non-ASCII display name"],
+                     "actions": ["bench (virtual clock)", "test", "list"], "variants": [" ".join(v[1]) for v in variants], "other_families": extra[:6], "tier_zoo": tier}
+    res["wall_s"] = time.time() - t0
+    return [res]
+
+
+CHECKS = {"C12": check_c12, "C13": check_c13, "C14": check_c14, "C17": check_c17, "C20": check_c20}
 
 
 def run(job, tier, seed, chk):
